@@ -74,12 +74,17 @@ func findKVShape(p *load.Program) *kvShape {
 }
 
 func runC03(c *core.Ctx) {
-	c.Explain("The tree invariant over reachable states is not decidable statically; decided are the preconditions that keep a flat path->record map a tree, on every path of the key-value FS (mem.FS delegates to it): (R03.1) every create site — a save of a record constructed in the operation (Mkdir, MkdirAll, OpenFile with create) or a store of a loaded record under another path (Rename's destination) — is dominated by a successful look-up of path.Dir(p) AND its IsDir()-true edge, or p is the root constant, or the path comes from the ancestor walk whose classifier answers a non-directory with ErrNotDir and which is replayed parent-first; (R03.2) every delete site and Rename's source and destination are dominated by a 'not the root' fact; (R03.3) before Rename's first store there is a test relating both names (other than equality) whose taken edge returns a *LinkError — a directory is never moved into its own subtree; (R03.4) on every path deleting a directory the listing was fetched and found empty. NOT claimed: the invariant itself in every reachable state, agreement of listing/Stat/Open, mount and Sub compositions (their only namespace write is AddMount, C06), termination.")
+	runFixtures(c, "drop", "valid")
+	c.Explain("The tree invariant over reachable states is not decidable statically; decided are the preconditions that keep a flat path->record map a tree, on every path of the key-value FS (mem.FS delegates to it): (R03.1) every create site — a save of a record constructed in the operation (Mkdir, MkdirAll, OpenFile with create) or a store of a loaded record under another path (Rename's destination) — is dominated by a successful look-up of path.Dir(p) AND its IsDir()-true edge, or p is the root constant, or the path comes from the ancestor walk whose classifier answers a non-directory with ErrNotDir and which is replayed parent-first; (R03.2) every delete site and Rename's source and destination are dominated by a 'not the root' fact; (R03.3) before Rename's first store there is a test relating both names (other than equality) whose taken edge returns a *LinkError — a directory is never moved into its own subtree; (R03.4) on every path deleting a directory the listing was fetched and found empty; (R03.5) every create site is reached only on paths on which the target path itself was looked up and found absent (failed look-up, errors.Is(err, ErrNotExist)) or not a directory — an existing directory is never overwritten by another record, which would leave its children below a non-directory; (R03.6) every strings.HasPrefix between names in packages keyvalue, mem, mount and the root package tests a prefix ending in '/' (or a constant on an element boundary): routing, listing and the subtree guard match whole path elements, so 'ab' is never treated as inside 'a'; (R03.7) every mode stored back into an existing record (Chmod by path and by handle) copies io/fs.ModeType from the previous mode — bitwise abstraction over &, &^, | with constants — so a directory cannot become a regular file above its children; (R03.8) in Rename no recursive child move is reachable after the source record was deleted and every child move follows the store of the destination record, so a fault between the steps leaves two well-formed directories. NOT claimed: the invariant itself in every reachable state, agreement of listing/Stat/Open, mount and Sub compositions (their only namespace write is AddMount, C06), termination.")
 	c.Assume("A3: listing names are single valid elements", "A6: partial correctness")
 	c.RuleDoc("R03.1", "parent is a directory before any create")
 	c.RuleDoc("R03.2", "root is never deleted, moved or replaced")
 	c.RuleDoc("R03.3", "no rename into own subtree")
 	c.RuleDoc("R03.4", "directories are deleted only when empty")
+	c.RuleDoc("R03.6", "every prefix test between names in keyvalue, mem, mount and the helpers is on a path-element boundary")
+	c.RuleDoc("R03.7", "a mode update keeps the record's type bits")
+	c.RuleDoc("R03.8", "directory rename: destination record first, children next, source record last")
+	c.RuleDoc("R03.5", "a record is stored under a path only where that path was found absent or not a directory")
 	for _, p := range c.Progs {
 		c.SetProg(p)
 		sh := findKVShape(p)
@@ -90,11 +95,18 @@ func runC03(c *core.Ctx) {
 		r03Creates(c, p, sh)
 		r03Deletes(c, p, sh)
 		r03Subtree(c, p, sh)
+		boundaryTests(c, p, "R03.6", "keyvalue", "mem", "mount", "")
+		r03KindKept(c, p, "R03.7")
+		r03RenameOrder(c, p, sh)
 	}
 	c.Floor("R03.1", 5)
 	c.Floor("R03.2", 3)
 	c.Floor("R03.3", 1)
 	c.Floor("R03.4", 1)
+	c.Floor("R03.5", 5)
+	c.Floor("R03.6", 3)
+	c.Floor("R03.7", 2)
+	c.Floor("R03.8", 1)
 }
 
 // pathDirOf: v is path.Dir(x); returns x.
@@ -317,11 +329,57 @@ func r03Creates(c *core.Ctx, p *load.Program, sh *kvShape) {
 			default:
 				c.Bad("R03.1", key, p.Pos(cl.Pos()), fmt.Sprintf("%s creates an entry at %s without a dominating 'parent exists (found=%v) and is a directory (isDir=%v)' check: an entry below a missing path or a regular file is unreachable from the root's listings", fname(fn), vname(pval), found, isDir))
 			}
+			// R03.5: what is overwritten is not a directory (its children would become entries below a non-directory)
+			switch {
+			case sh.ancestorWalk(p, fn, pval):
+				c.OK("R03.5", key, p.Pos(cl.Pos()), "p was classified missing by the ancestor walk")
+			case absentOrNotDirChecked(sh, cl, pval):
+				c.OK("R03.5", key, p.Pos(cl.Pos()), "on every path p was looked up and found absent or not a directory before the record is stored")
+			default:
+				c.Bad("R03.5", key, p.Pos(cl.Pos()), fmt.Sprintf("%s stores a record at %s on a path on which %s was not looked up and found absent or a non-directory: an existing directory is overwritten and its children become entries below a non-directory, unreachable from any listing", fname(fn), vname(pval), vname(pval)))
+			}
 		})
 	}
 }
 
 func hasKey(m map[*ssa.Function]int, f *ssa.Function) bool { _, ok := m[f]; return ok }
+
+// absentOrNotDirChecked: on every path reaching `at`, a look-up of pval itself failed (non-nil error edge or
+// errors.Is(err, ErrNotExist) true edge) or its IsDir() was found false.
+func absentOrNotDirChecked(sh *kvShape, at *ssa.Call, pval ssa.Value) bool {
+	fn := at.Parent()
+	ok := true
+	reached := false
+	ssax.EnumPaths(fn, fn.Blocks[0], 0, nil, ssax.PathHooks{
+		Branch: func(s *ssax.PathState, cond ssa.Value, taken bool) {
+			cnd, val := ssax.StripNot(cond, taken)
+			if x, eq, isN := ssax.NilTest(cnd); isN && eq != val && ssax.IsErrorType(x.Type()) {
+				if lp := sh.lookupPathOf(x, 0); lp != nil && lp == pval {
+					s.Counts["absent"] = 1
+				}
+			}
+			if e, sent, isE := isErrorsIs(cnd); isE && val && sent == "ErrNotExist" {
+				if lp := sh.lookupPathOf(e, 0); lp != nil && lp == pval {
+					s.Counts["absent"] = 1
+				}
+			}
+			if cl, isC := cnd.(*ssa.Call); isC && !val && cl.Call.IsInvoke() && cl.Call.Method.Name() == "IsDir" {
+				if lp := sh.lookupPathOf(cl.Call.Value, 0); lp != nil && lp == pval {
+					s.Counts["notdir"] = 1
+				}
+			}
+		},
+		Instr: func(s *ssax.PathState, ins ssa.Instruction) {
+			if ins == ssa.Instruction(at) {
+				reached = true
+				if s.Counts["absent"] == 0 && s.Counts["notdir"] == 0 {
+					ok = false
+				}
+			}
+		},
+	})
+	return ok && reached
+}
 
 // isRootOrParentChecked: path-sensitive form of the disjunction "p == root OR parent looked up and IsDir".
 func isRootOrParentChecked(sh *kvShape, at *ssa.Call, pval ssa.Value) bool {
@@ -571,4 +629,164 @@ func r03Subtree(c *core.Ctx, p *load.Program, sh *kvShape) {
 	})
 	c.Check(bad == "", "R03.3", key, p.Pos(guard.Pos()), "a relational test of both names fails with *LinkError before any store",
 		fmt.Sprintf("%s: the store at %s is reachable without passing the own-subtree test", fname(fn), bad))
+}
+
+// forEachChmodStore: every store of a freshly computed FileMode into a cell whose address becomes a record's
+// mode override (the chmod idiom of package keyvalue: newMode := …; rec.modeOverride = &newMode).
+func forEachChmodStore(p *load.Program, f func(fn *ssa.Function, st *ssa.Store)) {
+	for _, fn := range pkgFuncs(p, "keyvalue") {
+		ssax.Instrs(fn, func(ins ssa.Instruction) {
+			st, ok := ins.(*ssa.Store)
+			if !ok {
+				return
+			}
+			a, ok := st.Addr.(*ssa.Alloc)
+			if !ok || !strings.HasSuffix(typeString(a.Type()), "FileMode") || a.Referrers() == nil {
+				return
+			}
+			for _, r := range *a.Referrers() {
+				if s2, ok := r.(*ssa.Store); ok && s2.Val == ssa.Value(a) {
+					if fa, ok := s2.Addr.(*ssa.FieldAddr); ok {
+						if pt, ok := fa.Type().(*types.Pointer); ok {
+							if _, isPtr := pt.Elem().(*types.Pointer); isPtr {
+								f(fn, st)
+								return
+							}
+						}
+					}
+				}
+			}
+		})
+	}
+}
+
+// keptBits abstracts a mode expression bitwise: old = bits certainly copied from the record's previous mode
+// (any FileMode that is neither a parameter nor a constant: Mode() of the loaded record, a field load),
+// zero = bits certainly zero.
+func keptBits(v ssa.Value, depth int) (old, zero int64) {
+	if depth > 10 {
+		return 0, 0
+	}
+	switch x := v.(type) {
+	case *ssa.Const:
+		k, _ := ssax.ConstInt(x)
+		return 0, ^k
+	case *ssa.Parameter:
+		return 0, 0
+	case *ssa.Convert:
+		return keptBits(x.X, depth+1)
+	case *ssa.ChangeType:
+		return keptBits(x.X, depth+1)
+	case *ssa.Phi:
+		old, zero = -1, -1
+		for _, e := range x.Edges {
+			o, z := keptBits(e, depth+1)
+			old &= o
+			zero &= z
+		}
+		return old, zero
+	case *ssa.BinOp:
+		ox, zx := keptBits(x.X, depth+1)
+		oy, zy := keptBits(x.Y, depth+1)
+		kx, xc := ssax.ConstInt(x.X)
+		ky, yc := ssax.ConstInt(x.Y)
+		switch x.Op {
+		case token.AND:
+			switch {
+			case yc:
+				return ox & ky, zx | ^ky
+			case xc:
+				return oy & kx, zy | ^kx
+			}
+			return 0, zx | zy
+		case token.AND_NOT:
+			if yc {
+				return ox &^ ky, zx | ky
+			}
+			return 0, zx
+		case token.OR:
+			return (ox & zy) | (oy & zx), zx & zy
+		}
+		return 0, 0
+	case *ssa.UnOp:
+		if x.Op == token.XOR {
+			return 0, 0
+		}
+		return -1, 0 // load of a stored mode
+	case *ssa.Call:
+		return -1, 0 // Mode() of the record
+	}
+	return 0, 0
+}
+
+// r03KindKept (R03.7): an update of an existing record's mode keeps its type bits — a directory stays a directory.
+func r03KindKept(c *core.Ctx, p *load.Program, rule string) {
+	const modeType = int64(1)<<31 | 1<<27 | 1<<25 | 1<<24 | 1<<26 | 1<<21 | 1<<19 // io/fs.ModeType
+	ords := map[*ssa.Function]*ordinals{}
+	forEachChmodStore(p, func(fn *ssa.Function, st *ssa.Store) {
+		if ords[fn] == nil {
+			ords[fn] = &ordinals{}
+		}
+		key := fname(fn) + "|" + ords[fn].next("mode-update")
+		old, _ := keptBits(st.Val, 0)
+		c.Check(old&modeType == modeType, rule, key, p.Pos(st.Pos()), "the type bits of the stored mode are copied from the record's previous mode",
+			fmt.Sprintf("%s: the new mode of an existing record does not keep the previous mode's type bits (kept bits %#x, io/fs.ModeType %#x): a directory whose mode is changed is saved as a regular file and its children become entries below a non-directory", fname(fn), uint32(old), uint32(modeType)))
+	})
+}
+
+// r03RenameOrder (R03.8): in Rename, the source record outlives its children and the destination record precedes
+// them — no child move (recursive Rename call) is reachable after the deletion of the source, and every child move
+// follows a store of the destination record. A fault between the steps then leaves two well-formed directories.
+func r03RenameOrder(c *core.Ctx, p *load.Program, sh *kvShape) {
+	fn := sh.methods["Rename"]
+	if fn == nil || len(fn.Params) < 3 {
+		c.Hard("anchor: keyvalue.FS.Rename")
+		return
+	}
+	oldP, newP := ssa.Value(fn.Params[1]), ssa.Value(fn.Params[2])
+	recursive := 0
+	var afterDelete, beforeDest ssa.Instruction
+	complete := ssax.EnumPaths(fn, fn.Blocks[0], 0, nil, ssax.PathHooks{
+		Instr: func(s *ssax.PathState, ins ssa.Instruction) {
+			cl, ok := ins.(*ssa.Call)
+			if !ok {
+				return
+			}
+			callee := ssax.StaticCallee(cl)
+			if callee == nil {
+				return
+			}
+			if pi, isSet := sh.setFns[callee]; isSet {
+				rec := cl.Call.Args[pi+1]
+				switch {
+				case ssax.IsNilConst(rec) && cl.Call.Args[pi] == oldP:
+					s.Counts["deleted"] = 1
+				case !ssax.IsNilConst(rec) && cl.Call.Args[pi] == newP:
+					s.Counts["dest"] = 1
+				}
+			}
+			if callee == fn {
+				recursive++
+				if s.Counts["deleted"] == 1 && afterDelete == nil {
+					afterDelete = ins
+				}
+				if s.Counts["dest"] == 0 && beforeDest == nil {
+					beforeDest = ins
+				}
+			}
+		},
+	})
+	key := fname(fn) + "|children-between-dest-and-source"
+	switch {
+	case !complete:
+		c.Unknown("R03.8", key, p.Pos(fn.Pos()), "path enumeration exceeded its cap")
+	case recursive == 0:
+		c.Bad("R03.8", key, p.Pos(fn.Pos()), fmt.Sprintf("%s moves no children (no recursive call found): the rule cannot locate the directory move", fname(fn)))
+	case afterDelete != nil:
+		c.Bad("R03.8", key, p.Pos(afterDelete.Pos()), fmt.Sprintf("%s moves a child after the source directory's record was deleted: if that move fails (store fault) the children not yet moved stay below a directory that no longer exists", fname(fn)))
+	case beforeDest != nil:
+		c.Bad("R03.8", key, p.Pos(beforeDest.Pos()), fmt.Sprintf("%s moves a child before the destination directory's record was stored: the child is an entry below a missing directory until (and unless) the record follows", fname(fn)))
+	default:
+		c.OK("R03.8", key, p.Pos(fn.Pos()), "every child move happens after the destination record was stored and before the source record is deleted")
+	}
 }
